@@ -238,6 +238,11 @@ class LoopCtx:
             elif h.kind == 'slist':
                 self.length = h.meta['len']
                 self.item_fn = lambda k, s, h=h: h.meta['elem'](k)
+            elif h.kind == 'obj' and self.engine.repo.find_method(h.cls, '__next__') is not None:
+                # iterator protocol: the guard is a call of __next__ (StopIteration ends the loop)
+                self.length = None
+                self.item_fn = None
+                self.ghost['iterator'] = it
             elif h.kind == 'smapitems':
                 # enumeration (unspecified order, A-DICT-ORDER) of the keys present in the map when
                 # the loop starts: e[0..n) distinct, exactly the present keys
@@ -300,19 +305,38 @@ class LoopCtx:
         self.index = 0
 
     def havoc_index(self):
+        if self.length is None:
+            self.index = z3.Int(fresh_name('k'))
+            self.st.assume(self.index >= 0)
+            return
         k = z3.Int(fresh_name('k'))
         self.st.assume(k >= 0)
         self.st.assume(k <= self.length)
         self.index = k
 
     def for_guard(self, st):
-        from .engine import ok
+        from .engine import ok, rs
+        if self.length is None:
+            it = self.ghost['iterator']
+            fi = self.engine.repo.find_method(st.obj(it).cls, '__next__')
+            out = []
+            for r in self.engine.call_repo_function(fi, it, [], {}, st, self.node.lineno):
+                if r.kind == 'raise' and r.val.cls == 'StopIteration':
+                    out.append(ok(False, r.st))
+                elif r.kind == 'raise':
+                    out.append(r)
+                else:
+                    r.st.ghost['$next_item'] = r.val
+                    out.append(ok(True, r.st))
+            return out
         return [ok(self.index < self.length, st)]
 
     def for_body_state(self, st, spec):
         return None
 
     def current_item(self, st):
+        if self.length is None:
+            return st.ghost.pop('$next_item')
         return self.item_fn(self.index, st)
 
     def at_exit(self, st):
@@ -474,11 +498,10 @@ class Registry:
                 continue
             loops = [n for n in ast.walk(fi.node) if isinstance(n, (ast.For, ast.While))]
             for k in c.loops:
-                if k >= len(loops):
+                if k >= len(loops) and not c.inline:
                     problems.append(f'loop ordinal {k} of {t} does not exist')
-        for t in self.inline:
-            if repo.func(t) is None:
-                problems.append(f'inline target {t} does not exist')
+        # (an inline mark for a method a class merely inherits is harmless: a call that resolves to a
+        # function without contract and without inline mark makes the root out of reach anyway)
         for cl in list(self.fields) + list(self.monitors):
             if repo.cls(cl) is None:
                 problems.append(f'class {cl} does not exist')
